@@ -363,9 +363,19 @@ def replay_in_fresh_process(prop_id, path):
     """True iff the replay file fails the same way in a fresh interpreter."""
     env = dict(os.environ)
     env["VERIF_NO_EVIDENCE"] = "1"
-    r = subprocess.run([sys.executable, os.path.join(VERIF_DIR, "check"), prop_id,
-                        "--replay", path], capture_output=True, text=True, env=env,
-                       timeout=600)
+    # the replay has its own per-run watchdog (RUN_WALL_CAP of the property, 300 s by default): wait longer than
+    # that, and never let a slow replay end the check with a traceback
+    try:
+        import importlib
+        cap = getattr(importlib.import_module("props." + prop_id.lower()), "RUN_WALL_CAP", 300)
+    except Exception:
+        cap = 300
+    try:
+        r = subprocess.run([sys.executable, os.path.join(VERIF_DIR, "check"), prop_id,
+                            "--replay", path], capture_output=True, text=True, env=env,
+                           timeout=max(600, cap + 180))
+    except subprocess.TimeoutExpired:
+        return False
     return r.returncode == 1 and ("VIOLATION property=%s" % prop_id) in r.stdout
 
 
